@@ -1956,6 +1956,11 @@ def val_method(it, v, name, args, kw, node):
         if name == 'extend' and len(args) == 1 and Rope.of(it, args[0]) is not None:
             buf_store(it, v, len(v.v), len(v.v), args[0])
             return K(None)
+        if name == 'append' and len(args) == 1 and isinstance(args[0], K) and isinstance(args[0].v, int) and not isinstance(args[0].v, bool):
+            if not 0 <= args[0].v < 256:
+                raise RaiseEx('ValueError', 'byte must be in range(0, 256)')
+            buf_store(it, v, len(v.v), len(v.v), K(bytes([args[0].v])))
+            return K(None)
         if name == 'copy' and not args:
             return K(type(v.v)(v.v.rope))
         if name == 'clear' and not args:
